@@ -801,6 +801,8 @@ def run(an: Analysis, rep):
     from . import c04
     rep.run(c04.r041, an, SharedRules(rep, "R11.8", "every argument count is stored in the data: the decoded Args determine co_argcount / co_posonlyargcount / co_kwonlyargcount "
                                                   "(shared with C04's R04.1) - otherwise to_code() writes different counts"))
+    rep.run(c04.r043, an, SharedRules(rep, "R11.C", "the counts and the VARARGS / VARKEYWORDS flags the encoder writes are those of the decoded parameters, also when a hand-altered code object repeats a "
+                                                    "parameter name (shared with C04's R04.3): 'never returns silently lossy data'"), True)
     rep.stats.update(an.stats(interps))
     rep.assumptions += [
         "enum._decompose(flag, value) returns (members, not_covered) on 3.7-3.10 (parsed from each stdlib enum.py, see reference/)",
